@@ -604,7 +604,7 @@ def checker_pairs(seed: int, n: int, all_zoo: bool = False):
     for el in list(za.submodel_element):
         if type(el).__name__ == "Property" and bump(el.value) is not None:
             k_ += 1
-            if not all_zoo and k_ % 8 != seed % 8:
+            if not all_zoo and k_ % 8 != seed % 8 and type(el.value).__name__ != "Decimal":
                 continue                      # an eighth of them per seed (all of them over eight seeds; every one in the thorough tier)
             zb = _gen.Gen(random.Random("C20zoo"), max_depth=3).zoo_submodel()
             zc = _gen.Gen(random.Random("C20zoo"), max_depth=3).zoo_submodel()
